@@ -24,7 +24,7 @@ Code(t, l, i) == 100 * TCode(t) + 10 * LCode(l) + ICode(i)
 
 ColSets == <<<<>>, <<N_p1, N_p2d5>>, <<N_q0d1, N_q0d9>>, <<N_e0, N_e1, N_e2>>, <<N_crps, N_p1, N_q0d5>>,
              <<N_pop, N_px, N_e1x, N_pm1>>, <<N_e0, N_crps, N_p2d5, N_q0d9, N_quality>>,
-             <<N_pd5, N_qd9, N_pmd5, N_p5dot>>,            \* 8: every spelling of a number that the format's "p<number>" admits
+             <<N_pd5, N_qd9, N_pmd5, N_p5dot, N_p1em5>>,            \* 8: every spelling of a number that the format's "p<number>" admits
              <<N_p10, N_p0, N_p5, N_p1>>>>                  \* 9: four thresholds, listed in an order that is neither ascending nor descending
 Base == [timefmt |-> "unixtime", leadname |-> N_leadtime, hasLead |-> TRUE, idname |-> N_location, elevname |-> N_altitude,
          hasElev |-> TRUE, latlon |-> TRUE, hasObs |-> TRUE, hasFcst |-> TRUE, hasPit |-> FALSE, colset |-> 1,
